@@ -85,10 +85,21 @@ impl<'a> SectionsBuilder<'a> {
             return;
         }
 
-        self.section_block(&blocks[range.start]);
+        // a list item that does not start with text (but with a code block, a quote, a table or
+        // a rule) is an item with an empty text that holds all of its blocks
+        let rest = match &blocks[range.start] {
+            CodeBlock(_) | RawBlock(_) | BlockQuote(_) | HorizontalRule(_) | DocumentBlock::Table(_) => {
+                self.builder.section(vec![]);
+                range.start..range.end
+            }
+            block => {
+                self.section_block(block);
+                range.start + 1..range.end
+            }
+        };
 
         let id = self.builder.id();
-        self.process_blocks(range.start + 1..range.end, blocks);
+        self.process_blocks(rest, blocks);
         self.builder.set_id(id)
     }
 
